@@ -104,6 +104,9 @@ structure Cfg where
   /-- an exception from the early-stopping algorithm finishes the operation (fixed) rather than
       leaving it ACTIVE (pinned commit) -/
   esFailureFinishesOp : Bool
+  /-- `CreateTrial` keeps a trial given as INFEASIBLE completed (fixed) rather than putting it into the
+      REQUESTED pool like an unfinished one (pinned commit: only SUCCEEDED was kept) -/
+  createKeepsInfeasible : Bool := true
   deriving Repr, DecidableEq
 
 def Cfg.fixed : Cfg :=
@@ -403,9 +406,10 @@ def stopBody (st : Study) (id : Nat) : Resp × Study :=
     else if t.state == .stopping || t.state == .succeeded then (.trial t, st)
     else (.err .failedPrecondition .handled, st)
 
-def createTrialBody (st : Study) (t : Trial) : Resp × Study :=
+def createTrialBody (keepInf : Bool) (st : Study) (t : Trial) : Resp × Study :=
   let t := { t with id := st.maxTrialId + 1,
-                    state := if t.state == .succeeded then .succeeded else .requested,
+                    state := if t.state == .succeeded then .succeeded
+                             else if keepInf && t.state == .infeasible then .infeasible else .requested,
                     client := "" }
   (.trial t, st.addTrial t)
 
@@ -455,7 +459,7 @@ def step (cfg : Cfg) (db : DB) : Req → Resp × DB
                          orphans := if cfg.deleteCascadesOps then db.orphans
                                     else db.orphans.filter (·.1 != (o, s)) ++ [((o, s), st.sugOps, st.esOps)] })
   | .setStudyState o s stt => onStudy db o s false fun st => let st := { st with state := stt }; (.study st, st)
-  | .createTrial o s t => onStudy db o s true fun st => createTrialBody st t
+  | .createTrial o s t => onStudy db o s true fun st => createTrialBody cfg.createKeepsInfeasible st t
   | .suggest o s client count alg => onStudy db o s true fun st => suggestBody cfg st client count alg
   | .getOperation o s client num =>
     match (if cfg.deleteCascadesOps then none else
